@@ -283,14 +283,16 @@ func (n *node) Lookup(ctx context.Context, name string, out *fuse.EntryOut) (*fu
 
 	isRoot := n.isRootNode()
 
-	// We don't want to show prefetch landmarks in "/".
-	if isRoot && (name == estargz.PrefetchLandmark || name == estargz.NoPrefetchLandmark) {
-		return nil, syscall.ENOENT
-	}
-
-	// We don't want to show whiteouts.
-	if strings.HasPrefix(name, whiteoutPrefix) {
-		return nil, syscall.ENOENT
+	// We don't want to show prefetch landmarks in "/" and whiteout files.
+	// But readdir lists the whiteout *of* such a name (e.g. ".wh..wh.foo", which
+	// hides ".wh.foo" of the lower layers) as an overlayfs-styled whiteout so it
+	// needs to be found here as well.
+	if (isRoot && (name == estargz.PrefetchLandmark || name == estargz.NoPrefetchLandmark)) ||
+		strings.HasPrefix(name, whiteoutPrefix) {
+		if whiteoutPrefix+name == whiteoutOpaqueDir {
+			return nil, syscall.ENOENT // this is the opaque marker, not a whiteout
+		}
+		return n.lookupWhiteout(ctx, name, out)
 	}
 
 	// state directory
@@ -341,17 +343,8 @@ func (n *node) Lookup(ctx context.Context, name string, out *fuse.EntryOut) (*fu
 	id, ce, err := n.fs.r.Metadata().GetChild(n.id, name)
 	if err != nil {
 		// If the entry exists as a whiteout, show an overlayfs-styled whiteout node.
-		if whID, wh, err := n.fs.r.Metadata().GetChild(n.id, fmt.Sprintf("%s%s", whiteoutPrefix, name)); err == nil {
-			ino, err := n.fs.inodeOfID(whID)
-			if err != nil {
-				n.fs.s.report(fmt.Errorf("node.Lookup: %v", err))
-				return nil, syscall.EIO
-			}
-			return n.NewInode(ctx, &whiteout{
-				id:   whID,
-				fs:   n.fs,
-				attr: wh,
-			}, entryToWhAttr(ino, wh, &out.Attr)), 0
+		if cn, errno := n.lookupWhiteout(ctx, name, out); errno != syscall.ENOENT {
+			return cn, errno
 		}
 		n.readdir() // This code path is very expensive. Cache child entries here so that the next call don't reach here.
 		return nil, syscall.ENOENT
@@ -367,6 +360,25 @@ func (n *node) Lookup(ctx context.Context, name string, out *fuse.EntryOut) (*fu
 		fs:   n.fs,
 		attr: ce,
 	}, entryToAttr(ino, ce, &out.Attr)), 0
+}
+
+// lookupWhiteout returns an overlayfs-styled whiteout node if the whiteout file
+// of the specified name exists in this directory. Otherwise, it returns ENOENT.
+func (n *node) lookupWhiteout(ctx context.Context, name string, out *fuse.EntryOut) (*fusefs.Inode, syscall.Errno) {
+	whID, wh, err := n.fs.r.Metadata().GetChild(n.id, whiteoutPrefix+name)
+	if err != nil {
+		return nil, syscall.ENOENT
+	}
+	ino, err := n.fs.inodeOfID(whID)
+	if err != nil {
+		n.fs.s.report(fmt.Errorf("node.Lookup: %v", err))
+		return nil, syscall.EIO
+	}
+	return n.NewInode(ctx, &whiteout{
+		id:   whID,
+		fs:   n.fs,
+		attr: wh,
+	}, entryToWhAttr(ino, wh, &out.Attr)), 0
 }
 
 var _ = (fusefs.NodeOpener)((*node)(nil))
